@@ -421,7 +421,10 @@ func (app *App) addRoute(method string, route *Route, isMounted ...bool) {
 	l := len(app.stack[m])
 	if l > 0 && app.stack[m][l-1].Path == route.Path && route.use == app.stack[m][l-1].use && !route.mount && !app.stack[m][l-1].mount {
 		preRoute := app.stack[m][l-1]
-		preRoute.Handlers = append(preRoute.Handlers, route.Handlers...)
+		// the handler slice may be shared with the routes the same registration created for other
+		// methods: never append in place (cap == len forces a copy)
+		n := len(preRoute.Handlers)
+		preRoute.Handlers = append(preRoute.Handlers[:n:n], route.Handlers...)
 	} else {
 		// Increment global route position
 		route.pos = atomic.AddUint32(&app.routesCount, 1)
